@@ -3,6 +3,7 @@ import Guard.Gen.Functions
 import Guard.Properties.SitesBaseline
 import Guard.Properties.C11
 import Guard.Properties.C18
+import Guard.Lemmas.FramesEval
 /-
   C08 — no input crashes the tool; bad input is reported as an error.
 
@@ -152,5 +153,24 @@ theorem C08_call_no_index_panic (env : Env) (name : FunctionName) (args : List (
       intro v
       repeat' split
       all_goals simp
+
+/-- **the scope-stack panic of `resolve_variable` is unreachable**: the model's `finish` step (the Rust code
+    re-borrows the block scope it started in) pattern-matches the stack after the variable's query ran; by
+    the stack discipline proved for the whole evaluator that match always succeeds, for every program,
+    document, state and fuel. -/
+theorem C08_variable_finish_never_fails (env : Env) (fuel : Nat) (q : List QueryPart) (root : PV) (nb : BlockFrame)
+    (rest : List Frame) (st1 st' : St) (result : List QR) (h1 : st1.frames = Frame.block nb :: rest)
+    (h : queryRetrieval env fuel 0 q root none st1 = .ok (result, st')) :
+    ∃ b' rest', st'.frames = Frame.block b' :: rest' :=
+  let ⟨b', rest', e, _, _⟩ := finish_shape env fuel q root nb rest st1 st' result h1 h
+  ⟨b', rest', e⟩
+
+/-- `resolver.root()` cannot fail after an evaluation step: the stack a step leaves has the root it started with -/
+theorem C08_root_survives (env : Env) (fuel : Nat) (c : Clause) (st st' : St) (s : Status) (r : PV)
+    (hr : rootOfFrames st.frames = some r) (h : evalClause env fuel c st = .ok (s, st')) :
+    currentRoot st' = .ok (r, st') := by
+  have hs := (allPres env fuel).clause c st s st' h
+  unfold currentRoot
+  rw [← hs.root, hr]
 
 end Guard.C08
